@@ -19,7 +19,7 @@ def _copy_val(v):
         return c
     if isinstance(v, SOpt):
         return SOpt(v.present, _copy_val(v.value))
-    if type(v).__name__ in ("SMap", "SColl", "SSet"):
+    if type(v).__name__ in ("SMap", "SColl", "SSet", "SList"):
         return v.copy()
     return v
 
@@ -105,7 +105,7 @@ def clone_graph(bindings):
             c.members = [[p_, cl(x, depth + 1)] for p_, x in c.members]
             c.live = v
             return c
-        if type(v).__name__ == "SSet":
+        if type(v).__name__ in ("SSet", "SList"):
             return v.copy()
         if isinstance(v, list):
             return [cl(x, depth + 1) for x in v]
